@@ -464,6 +464,19 @@ CLAIMED = {
 }
 
 NA = {
+    "C11": "not claimed: no check is built. The RREL evaluator (textx/scoping/rrel.py: get_next_matches of the RREL "
+           "node classes, find_object_with_path) is a set of mutually recursive LAZY GENERATORS; the verification-"
+           "condition generator of /verif executes generators only in the two shapes it models (a generator consumed "
+           "by next() over a list, and yield inside a @contextmanager), so the functions this property is anchored in "
+           "are outside what it can bring under contract in the time available. Only the printers of the RREL node "
+           "classes are under contract (C12). No other technique was substituted; nothing is asserted either way "
+           "(DESIGN.md 11.10, 11.12).",
+    "C29": "not claimed: no check is built. One fragment is decided - dot_escape is proved safe inside DOT double "
+           "quotes for every input string by the transducer back end (DESIGN.md 11.9) - but the write sites of "
+           "model_export_to_file / metamodel_export_tofile and the renderers ('a node for every object', every "
+           "written string escaped, PlantUML balanced) are not under contract, and the round-0 probes showed "
+           "unescaped pieces there; a green check on the fragment alone would overstate what is known, so the "
+           "property is not claimed and the fragment is not registered as a check.",
     "C19": "Arpeggio's packrat cache (_result_cache keyed by position) decides this; no /repo function is "
            "involved beyond forwarding one keyword argument, so no contract on /repo code can express or decide it.",
     "C24": "Equivalence of two hand-written PEG grammars (textx.tx vs lang.py) is not a property of any function; "
